@@ -3,7 +3,25 @@ package simrt
 import (
 	"fmt"
 	"log"
+	"runtime"
+	"sync"
 )
+
+// GOMAXPROCS and NumCPU replace the runtime functions: under the simulator the
+// degree of parallelism a program asks about is the run's Workers knob.
+func GOMAXPROCS(n int) int {
+	if mode.Load() == ModeSerial && cur != nil {
+		return cur.cfg.Workers
+	}
+	return runtime.GOMAXPROCS(n)
+}
+
+func NumCPU() int {
+	if mode.Load() == ModeSerial && cur != nil {
+		return cur.cfg.Workers
+	}
+	return runtime.NumCPU()
+}
 
 // IterMap replaces conc/iter.Map. Under the simulator the mapping runs on
 // cfg.Workers simulated worker tasks that pull indices from a shared counter
@@ -93,4 +111,52 @@ func LogPrintln(v ...any) {
 		return
 	}
 	fmt.Fprint(Stderr, fmt.Sprintln(v...))
+}
+
+// Now returns the scheduler's global transition number (0 without a simulation):
+// the event sequence number used to stamp recorded histories.
+func Now() int64 {
+	if mode.Load() != ModeSerial {
+		return 0
+	}
+	s := cur
+	s.mu.Lock()
+	n := int64(s.steps)*1000 + int64(s.sub)
+	s.sub++
+	s.mu.Unlock()
+	return n
+}
+
+// Pool replaces sync.Pool in instrumented code: a deterministic LIFO free list
+// (sync.Pool's per-P caches and GC-driven eviction would make runs
+// irreproducible). Handing back the most recently returned object is one of the
+// behaviours sync.Pool may legally show.
+type Pool struct {
+	New   func() any
+	mu    sync.Mutex
+	items []any
+}
+
+func (p *Pool) Get() any {
+	p.mu.Lock()
+	if n := len(p.items); n > 0 {
+		x := p.items[n-1]
+		p.items = p.items[:n-1]
+		p.mu.Unlock()
+		return x
+	}
+	p.mu.Unlock()
+	if p.New != nil {
+		return p.New()
+	}
+	return nil
+}
+
+func (p *Pool) Put(x any) {
+	if x == nil {
+		return
+	}
+	p.mu.Lock()
+	p.items = append(p.items, x)
+	p.mu.Unlock()
 }
